@@ -483,13 +483,264 @@ def run_near(tdgl, plan, ordinary):
 
 
 def run_batch(tdgl, args, tmp=None):
-    """worker entry (rf.replay_all 'call'): args = dict(plans=[...], tiny=[...], ordinary=[...])"""
+    """worker entry (rf.replay_all 'call'): args = dict(plans=[...], tiny=[...], ordinary=[...], histories=[...], unsolvable=[...])"""
     import logging
 
     logging.getLogger("solver").setLevel(logging.CRITICAL)
     out = [run_plan(tdgl, p) for p in args.get("plans", [])]
     out += [run_tiny(tdgl, p, args["ordinary"]) for p in args.get("tiny", [])]
     out += [run_near(tdgl, p, args["ordinary"]) for p in args.get("near", [])]
+    for p in args.get("histories", []):
+        out += run_history(tdgl, p, args["ordinary"], args.get("unsolvable", []))
+    return out
+
+
+# ---------------------------------------------------------------- call histories on caller-owned argument buffers
+#
+# The property quantifies over INPUTS: the answer of a call is a function of the numbers in its arguments at the time of the call,
+# whatever was asked before and whichever array objects carry the numbers.  A history is a sequence of calls of the real static method
+# made by ONE caller that owns its argument buffers (a hand-written stepping loop with preallocated arrays): per buffer the caller
+# either rewrites one persistent array in place ("inplace"), passes a new view object of one persistent block of memory ("view"), or
+# allocates a new array for every call and drops the old one ("fresh": the allocator may hand out the same address again).  Between
+# calls a subset of the value groups (psi [with |psi|^2], mu, epsilon, Laplacian entries) and of the scalars (dt, gamma, u) changes.
+# Every call is one trace for PsiUpdateTrace (site kind "history"): z, w are the documented ones of the numbers the harness wrote
+# (kept in its own Python lists, never read back from the buffers), class = exact sign of their discriminant.
+
+HIST_BUFFERS = ["psi", "abs_sq_psi", "mu", "epsilon", "psi_laplacian"]
+HIST_GROUP_OF = {"psi": "psi", "abs_sq_psi": "psi", "mu": "mu", "epsilon": "eps", "psi_laplacian": "lap"}
+HIST_GROUPS = ["psi", "mu", "eps", "lap"]
+HIST_MODES = ["inplace", "view", "fresh"]
+HIST_EPS = [-1.0, -0.5, 0.0, 0.25, 0.5, 1.0]
+HIST_FACTORS = [0.5, -1.0, 1j, 0.8 * cmath.exp(0.3j), 1.2, 0.9 * cmath.exp(-2.0j), 0.0]
+
+
+def history_plans(seed, quick):
+    """Plans of call histories: the first 13 are designed (each buffer alone reused in place / as a view while the others are fresh;
+    all in place; all views; all fresh), the rest draw a mode per buffer."""
+    rnd = random.Random(seed + 41)
+    designed = []
+    for b in HIST_BUFFERS:
+        for m in ("inplace", "view"):
+            designed.append(({x: (m if x == b else "fresh") for x in HIST_BUFFERS}, HIST_GROUP_OF[b]))
+    for m in HIST_MODES:
+        designed.append(({x: m for x in HIST_BUFFERS}, None))
+    total = 40 if quick else 400
+    plans = []
+    for h in range(total):
+        if h < len(designed):
+            modes, focus = designed[h]
+        else:
+            modes, focus = {x: rnd.choice(HIST_MODES) for x in HIST_BUFFERS}, None
+        gamma = 0.0 if h % 6 == 5 else rnd.choice(GAMMAS)
+        plans.append(dict(h=h, modes=modes, focus=focus, gamma=gamma, u=rnd.choice([1.0, 5.79]), dt=2.0 ** rnd.randint(-10, 3),
+                          n=rnd.randint(3, 6), calls=(6 if quick else 8), seed=rnd.randrange(10 ** 6), family="history"))
+    return plans
+
+
+def _float_class(psi, mu, eps, gamma, u, dt, action):
+    """PLANNING only (never the oracle): float evaluation of the class of the documented z, w: 'solv', 'uns' or 'edge'"""
+    U = cmath.exp(-1j * (mu * dt))
+    a = abs(psi) ** 2
+    z = gamma ** 2 / 2 * U * psi
+    w = z * a + U * (psi + dt / u * math.sqrt(1 + gamma ** 2 * a) * ((eps - a) * psi + action))
+    N = 2 * (z.real * w.real + z.imag * w.imag) + 1
+    D = N * N - 4 * abs(z) ** 2 * abs(w) ** 2
+    if N > 0 and D > 1e-4 * N * N:
+        return "solv"
+    if N <= 0 or D < -1e-4 * N * N:
+        return "uns"
+    return "edge"
+
+
+class _CallerBuffers:
+    """the caller's argument buffers of one history"""
+
+    def __init__(self, n, modes):
+        import scipy.sparse as sp
+
+        self.sp = sp
+        self.n = n
+        self.modes = modes
+        N = n + 1
+        self.keep = {}
+        for b, dt_ in (("psi", np.complex128), ("abs_sq_psi", float), ("mu", float), ("epsilon", float)):
+            if modes[b] == "inplace":
+                self.keep[b] = np.zeros(N, dtype=dt_)
+            elif modes[b] == "view":
+                self.keep[b] = np.zeros((3, N), dtype=dt_)
+        # the Laplacian's fixed pattern: row k < n holds (k, k) and (k, n); row n is empty
+        self.indices = np.array([c for k in range(n) for c in (k, n)], dtype=np.int32)
+        self.indptr = np.array([2 * k for k in range(n)] + [2 * n, 2 * n], dtype=np.int32)
+        self.data = np.zeros(2 * n, dtype=np.complex128)
+        if modes["psi_laplacian"] == "inplace":
+            self.keep["psi_laplacian"] = sp.csr_array((self.data, self.indices, self.indptr), shape=(N, N), copy=False)
+        self.last = {}
+
+    def vector(self, b, values, dtype):
+        m = self.modes[b]
+        if m == "inplace":
+            arr = self.keep[b]
+            arr[:] = values
+        elif m == "view":
+            self.keep[b][1, :] = values
+            arr = self.keep[b][1]                     # a new view object on the same memory
+        else:
+            self.last.pop(b, None)                    # drop the previous call's array first
+            arr = np.array(values, dtype=dtype)
+        self.last[b] = arr
+        return arr
+
+    def laplacian(self, diag, aux):
+        sp, n = self.sp, self.n
+        m = self.modes["psi_laplacian"]
+        flat = [x for k in range(n) for x in (diag[k], aux[k])]
+        if m == "inplace":
+            M = self.keep["psi_laplacian"]
+            M.data[:] = flat
+        elif m == "view":
+            self.data[:] = flat
+            M = sp.csr_array((self.data, self.indices, self.indptr), shape=(n + 1, n + 1), copy=False)   # new matrix object, same memory
+        else:
+            self.last.pop("psi_laplacian", None)
+            L = np.zeros((n + 1, n + 1), dtype=np.complex128)
+            for k in range(n):
+                L[k, k], L[k, n] = diag[k], aux[k]
+            M = sp.csr_array(L)
+        self.last["psi_laplacian"] = M
+        return M
+
+
+def _history_schedule(rnd, calls, focus):
+    """what changes before call k >= 1: (set of value groups, list of scalars)"""
+    sched = []
+    for k in range(1, calls):
+        kind = (k % 5) if focus else rnd.randrange(5)
+        g0 = focus or rnd.choice(HIST_GROUPS)
+        others = [g for g in HIST_GROUPS if g != g0]
+        if kind == 1:
+            ch, sc = {g0}, []
+        elif kind == 2:
+            ch, sc = {g0} | set(rnd.sample(others, rnd.randint(1, 2))), []
+        elif kind == 3:
+            ch, sc = set(others), []
+        elif kind == 4:
+            ch = set() if rnd.random() < 0.35 else {"lap"}
+            sc = rnd.sample(["dt", "gamma", "u"], rnd.randint(1, 2))
+        else:
+            ch, sc = set(HIST_GROUPS), (["dt"] if rnd.random() < 0.3 else [])
+        sched.append((ch, sc))
+    return sched
+
+
+def run_history(tdgl, plan, solvable_points, unsolvable_points):
+    """One history of calls of the REAL static method on caller-owned buffers -> one trace per call (+ a 'stale' observation per call:
+    the previous call's answer judged against this call's inputs, which TLC must reject: sharpness of the family)."""
+    import warnings
+
+    from tdgl.solver.solver import TDGLSolver
+
+    rnd = random.Random(plan["seed"])
+    n = plan["n"]
+    modes = plan["modes"]
+    bufs = _CallerBuffers(n, modes)
+    gamma, u, dt = plan["gamma"], plan["u"], plan["dt"]
+    # the harness's OWN numbers (Python scalars): site k < n; the auxiliary site n holds the uniform stationary state
+    psi = [0j] * n
+    mu = [0.0] * n
+    eps = [1.0] * n
+    kind = ["aux"] * n
+    entry = [0j] * n
+    sched = [(set(HIST_GROUPS), [])] + _history_schedule(rnd, plan["calls"], plan.get("focus"))
+    out = []
+    prev = None
+    for k, (changed, scal) in enumerate(sched):
+        changed = set(changed)
+        if "dt" in scal:
+            dt = rnd.choice([x for x in (2.0 ** e for e in range(-10, 4)) if x != dt])
+        if "u" in scal:
+            u = 1.0 if u != 1.0 else 5.79
+        if "gamma" in scal:
+            gamma = rnd.choice([g for g in GAMMAS + [0.0] if g != gamma])
+        g = gamma ** 2 / 2
+        tau = dt / u
+        want_refusal = ("lap" in changed) and gamma > 0 and rnd.random() < 0.3
+        bad_site = rnd.randrange(n) if want_refusal else -1
+        for i in range(n):
+            if "mu" in changed:
+                mu[i] = rnd.choice([rnd.choice(MU_PHASES) / dt, rnd.uniform(-math.pi, math.pi) / dt, rnd.uniform(-50.0, 50.0)])
+            if "eps" in changed:
+                eps[i] = rnd.choice(HIST_EPS)
+            U = cmath.exp(-1j * (mu[i] * dt))
+            target_w = None
+            if "psi" in changed:
+                if "lap" in changed and gamma > 0:
+                    pool = unsolvable_points if (i == bad_site and unsolvable_points) else solvable_points
+                    p = rnd.choice(pool)                                  # a grid point emitted by TLC
+                    psi[i] = complex(p["zr"], p["zi"]) / DEN / (g * U)
+                    target_w = complex(p["wr"], p["wi"]) / DEN
+                elif gamma == 0 or psi[i] == 0:
+                    psi[i] = rnd.choice(PSI_FREE)
+                else:
+                    cands = rnd.sample(HIST_FACTORS, len(HIST_FACTORS))
+                    pick = cands[0]
+                    if "lap" not in changed:
+                        for f in cands:
+                            act = entry[i] * (psi[i] * f if kind[i] == "diag" else 1.0)
+                            if _float_class(psi[i] * f, mu[i], eps[i], gamma, u, dt, act) == "solv":
+                                pick = f
+                                break
+                    psi[i] = psi[i] * pick
+            if "lap" in changed:
+                a = abs(psi[i]) ** 2
+                z = g * U * psi[i]
+                if target_w is None:
+                    az = abs(z)
+                    if i == bad_site and az > 0:
+                        target_w = -z / az * rnd.uniform(1.0, 2.0) / az          # c = -|z||w| <= -1: 2c + 1 < 0, no solution
+                    elif rnd.random() < 0.5:
+                        r = rnd.random() * (2.0 if az == 0 else min(2.0, 0.2 / az))      # |z||w| < 1/4: lemma SmallProductSolvable
+                        target_w = cmath.rect(r, rnd.uniform(-math.pi, math.pi))
+                    else:
+                        for _ in range(20):
+                            target_w = cmath.rect(rnd.uniform(0.0, 2.5), rnd.uniform(-math.pi, math.pi))
+                            c = z.real * target_w.real + z.imag * target_w.imag
+                            if 2 * c + 1 > 0 and (2 * c + 1) ** 2 - 4 * az ** 2 * abs(target_w) ** 2 > 1e-3 * (2 * c + 1) ** 2:
+                                break
+                        else:
+                            target_w = cmath.rect(rnd.random() * (2.0 if az == 0 else min(2.0, 0.2 / az)), 1.0)
+                S = math.sqrt(1 + gamma ** 2 * a)
+                ell = ((target_w - z * a) / U - psi[i]) / (tau * S) - (eps[i] - a) * psi[i]
+                kind[i] = rnd.choice(["diag", "aux"]) if psi[i] != 0 else "aux"
+                entry[i] = ell / psi[i] if kind[i] == "diag" else ell
+        # ---- the caller writes its buffers and calls
+        PSI = [complex(x) for x in psi] + [1 + 0j]
+        MU = [float(x) for x in mu] + [0.0]
+        EPS = [float(x) for x in eps] + [1.0]
+        A2 = [abs(x) ** 2 for x in PSI]
+        diag = [entry[i] if kind[i] == "diag" else 0j for i in range(n)]
+        aux = [entry[i] if kind[i] == "aux" else 0j for i in range(n)]
+        action = [complex(np.complex128(entry[i]) * np.complex128(PSI[i] if kind[i] == "diag" else 1.0)) for i in range(n)] + [0j]
+        kw = dict(psi=bufs.vector("psi", PSI, np.complex128), abs_sq_psi=bufs.vector("abs_sq_psi", A2, float), mu=bufs.vector("mu", MU, float),
+                  epsilon=bufs.vector("epsilon", EPS, float), gamma=gamma, u=u, dt=dt, psi_laplacian=bufs.laplacian(diag, aux))
+        with warnings.catch_warnings():
+            warnings.simplefilter("default")
+            res = TDGLSolver.solve_for_psi_squared(**kw)
+        del kw
+        ans = None if res is None else (np.array(res[0]), np.array(res[1]))
+        ev, worst = _site_obs(PSI, MU, EPS, gamma, u, dt, action, None if ans is None else ans[0], None if ans is None else ans[1], ans is None,
+                              kind="history")
+        stale = None
+        if prev is not None and prev["ans"] is not None and ans is not None and (changed or scal):
+            sev, sworst = _site_obs(PSI, MU, EPS, gamma, u, dt, action, prev["ans"][0], prev["ans"][1], False, kind="history")
+            if sworst >= 1000 * TOL:           # the inputs changed materially: the previous answer is far from solving this call's equation
+                stale = sev
+        hist = dict(h=plan["h"], k=k, modes=modes, changed=sorted(changed) if k else [], scalars_changed=list(scal), focus=plan.get("focus"),
+                    prev_refused=None if prev is None else prev["ans"] is None)
+        out.append(dict(refused=ans is None, ev=ev, family="history", hist=hist, worst=worst, stale=stale,
+                        params=dict(gamma=gamma, u=u, dt=dt),
+                        inputs=dict(psi=[[x.real, x.imag] for x in PSI], mu=MU, eps=EPS, lap=[[kind[i], entry[i].real, entry[i].imag] for i in range(n)]),
+                        answer=None if ans is None else [[complex(a_).real, complex(a_).imag, float(np.real(b_))] for a_, b_ in zip(ans[0], ans[1])]))
+        prev = dict(ans=ans)
     return out
 
 
@@ -524,8 +775,10 @@ LEMMAS = ["TypeOK", "DiscriminantDecides", "ClassesAgree", "SmallProductSolvable
 # ---------------------------------------------------------------- solver level (in situ): C02 on the updates of real runs
 
 
-def _site_obs(psi_n, mu_n, eps, gamma, u, dt, action, p, s, refused):
-    """per-site observations (kind 'insitu') of one answered update / one attempt, from the DOCUMENTED z, w of its inputs"""
+def _site_obs(psi_n, mu_n, eps, gamma, u, dt, action, p, s, refused, kind="insitu"):
+    """per-site observations (kind 'insitu'; 'history' for the calls of a history on caller-owned buffers) of one answered update /
+    one attempt, from the DOCUMENTED z, w of its inputs.  kind 'history': the class of a site is determined only where the exact
+    |D|/(2c+1)^2 also exceeds 100 x the a-priori rounding bound of the float evaluation (as in the near-tangent family)."""
     ev = []
     worst = 0.0
     for i in range(len(psi_n)):
@@ -535,11 +788,13 @@ def _site_obs(psi_n, mu_n, eps, gamma, u, dt, action, p, s, refused):
         D = Nq * Nq - 4 * zd.abs2() * wd.abs2()
         ratio = float(D / (Nq * Nq)) if Nq != 0 else -1.0
         determined = abs(ratio) >= 1e-9
+        if kind == "history" and determined and Nq > 0:
+            determined = abs(ratio) >= MARGIN * float_discriminant_bound(M, wd.mag())[0]
         if refused:
             dpos = bool(Nq > 0 and D >= 0 and determined)          # undetermined sites may explain a refusal
         else:
             dpos = bool(not ((Nq <= 0 or D < 0) and determined))    # undetermined sites may be answered
-        o = dict(kind="insitu", zr=0, zi=0, wr=0, wi=0, e1=0, e2=0, br=True, fin=True, sq=0, dpos=dpos)
+        o = dict(kind=kind, zr=0, zi=0, wr=0, wi=0, e1=0, e2=0, br=True, fin=True, sq=0, dpos=dpos)
         if not refused:
             ob = abstract_site(zd, wd, M, p[i], s[i])
             o.update(ob)
